@@ -444,3 +444,24 @@ Proof.
   destruct H2 as (_ & _ & _ & Hv & _ & _ & _ & _ & He & _).
   lia.
 Qed.
+
+
+(* the (0,1] cell convention of voronization.py:110 : cell k  <->  k < n/m <= k+1 *)
+Lemma cell_of_spec : forall n m k : Z, 0 < m -> (cell_of n m = k <-> k * m < n <= (k + 1) * m).
+Proof.
+  intros n m k Hm. unfold cell_of. split.
+  - intros <-. pose proof (Z.div_mod (n - 1) m ltac:(lia)). pose proof (Z.mod_pos_bound (n - 1) m Hm). nia.
+  - intros H. symmetry. apply Z.div_unique with (r := n - 1 - k * m); lia.
+Qed.
+
+(* "crossing flag = cell offset": a reference point of the unit cell, translated by the integer vector
+   (cx, cy) (the crossing of an edge, by check_dual_sound/side_shared), lies in the cell (cx, cy) *)
+Lemma crossing_is_cell_offset : forall S (r : pt * Z) (cx cy : Z),
+  0 < S -> in_cell_P S r ->
+  cell_of (fst (fst r) + cx * (snd r * S)) (snd r * S) = cx /\
+  cell_of (snd (fst r) + cy * (snd r * S)) (snd r * S) = cy.
+Proof.
+  intros S [[nx ny] m] cx cy HS [Hm [Hx Hy]]. cbn [fst snd] in *.
+  assert (0 < m * S) by nia.
+  split; apply cell_of_spec; nia.
+Qed.
